@@ -19,6 +19,8 @@ mod verif_c14;
 #[cfg(all(test, feature = "verif"))]
 mod verif_c05;
 #[cfg(all(test, feature = "verif"))]
+mod verif_c06;
+#[cfg(all(test, feature = "verif"))]
 mod verif_c18;
 
 pub(crate) mod vote_extension;
